@@ -15,6 +15,8 @@ func init() {
 }
 
 func checkC04(c *Ctx, r *Report) {
+	// "yields no spec" / "is accepted only if": a rejected project is a failed command (shared with C14.d, C20.a)
+	defer checkCommandExitStatus(c, r, "C04.d")
 	defer checkScopesNeverNil(c, r, "C04.c")
 	defer checkProcessWideState(c, r, "C04.b")
 	w := c.W
